@@ -62,8 +62,8 @@ func checkLexPrimitives(p *Prog, l *Ledger, rule string) bool {
 			"rune": q("test(((s.current + 1) < len(s.source)))→true ; return(s.source[(s.current + 1)])")},
 		"advance": {"step": q("fieldstore(s.current, (s.current + 1)) ; return(s.source[s.current])")},
 		"match": {"end": `call\(lexer\.\(\*Scanner\)\.isAtEnd, s\) ; test\(r\)→true ; return\(false\)`,
-			"differ": `call\(lexer\.\(\*Scanner\)\.isAtEnd, s\) ; test\(r\)→false ; test\(\(expected == s\.source\[s\.current\]\)\)→false ; return\(false\)`,
-			"same":   `call\(lexer\.\(\*Scanner\)\.isAtEnd, s\) ; test\(r\)→false ; test\(\(expected == s\.source\[s\.current\]\)\)→true ; fieldstore\(s\.current, \(s\.current \+ 1\)\) ; return\(true\)`},
+			"differ": `call\(lexer\.\(\*Scanner\)\.isAtEnd, s\) ; test\(r\)→false ; test\(\(a1 == s\.source\[s\.current\]\)\)→false ; return\(false\)`,
+			"same":   `call\(lexer\.\(\*Scanner\)\.isAtEnd, s\) ; test\(r\)→false ; test\(\(a1 == s\.source\[s\.current\]\)\)→true ; fieldstore\(s\.current, \(s\.current \+ 1\)\) ; return\(true\)`},
 	}
 	okAll := true
 	var names []string
@@ -81,8 +81,13 @@ func checkLexPrimitives(p *Prog, l *Ledger, rule string) bool {
 		m := NewInterpModel(p, "Scanner."+n)
 		m.MainMode = true
 		var params []AV
-		for _, prm := range fn.Params {
-			params = append(params, Sym(prm.Name()))
+		for i := range fn.Params {
+			// positional names: the reference words must not depend on how the source names its parameters
+			if i == 0 {
+				params = append(params, Sym("s"))
+			} else {
+				params = append(params, Sym(fmt.Sprintf("a%d", i)))
+			}
 		}
 		m.Explore(fn, params, nil)
 		l.Funcs[p.FuncKey(fn)] = true
